@@ -11,6 +11,7 @@ import (
 	"verif/checks/c02"
 	"verif/checks/c03"
 	"verif/checks/c09"
+	"verif/checks/c10"
 	"verif/checks/c12"
 	"verif/checks/c13"
 	"verif/checks/c14"
@@ -31,6 +32,7 @@ var checks = map[string]check{
 	"C01": {"model_checking", c01.Run},
 	"C02": {"model_checking", c02.Run},
 	"C09": {"model_checking", c09.Run},
+	"C10": {"model_checking", c10.Run},
 	"C12": {"fault_enumeration", c12.Run},
 	"C13": {"model_checking", c13.Run},
 	"C14": {"model_checking", c14.Run},
